@@ -17,7 +17,7 @@ SeqToSet(q) == {q[i] : i \in DOMAIN q}
 
 \* JSON object -> state record of Repo.tla
 StateOf(j) ==
-  [ cfgc |-> j.cfgc, prof |-> j.prof, par |-> j.par, present |-> SeqToSet(j.present), cfgNewer |-> j.cfgNewer, mt |-> j.mt, art |-> j.art,
+  [ cfgc |-> j.cfgc, prof |-> j.prof, profp |-> j.profp, par |-> j.par, present |-> SeqToSet(j.present), cfgNewer |-> j.cfgNewer, mt |-> j.mt, art |-> j.art,
     pc |-> "idle", plan |-> <<>>, pos |-> 0, flags |-> SeqToSet(j.flags), last |-> j.last ]
 
 \* pre.last / pre.flags are outputs of the previous step and irrelevant for what may happen next
@@ -29,6 +29,7 @@ ActOf(a) ==
   ELSE IF a.name = "Edit" THEN [name |-> "Edit", e |-> a.e, c |-> a.c]
   ELSE IF a.name = "SetIssuer" THEN [name |-> "SetIssuer", e |-> a.e, p |-> a.p]
   ELSE IF a.name = "EditProfile" THEN [name |-> "EditProfile", c |-> a.c]
+  ELSE IF a.name \in {"RemoveProfile", "AddProfile"} THEN [name |-> a.name]
   ELSE IF a.name = "Truncate" THEN [name |-> "Truncate", e |-> a.e, cut |-> a.cut]
   ELSE [name |-> a.name, e |-> a.e]
 
@@ -76,9 +77,9 @@ Clauses(o) ==
   \cup
      \* ---- the transition itself
      (IF o.obs.result = "panic" \/ ~TypeOK(pre) \/ ~TypeOK(post) THEN {}
-      \* Open refuses a directory exactly when a configuration names an issuer nobody defines (the bounded model has
-      \* no cycles and no alias collisions); a refusal changes nothing (the transition clause)
-      ELSE IF o.obs.result = "refused" /\ ~Dangling(pre) THEN {"refused"}
+      \* a directory is refused exactly when a configuration names an issuer nobody defines (the bounded model has no cycles
+      \* and no alias collisions) or names the shared profile while its file is gone; a refusal changes nothing (the transition clause)
+      ELSE IF o.obs.result = "refused" /\ ~Refusing(pre, fl) THEN {"refused"}
       ELSE IF post \in Successors(pre, a) THEN {} ELSE {"transition"})
   \cup
      \* ---- C10: only the planned artifacts change; nothing else is written, created or deleted
@@ -98,7 +99,7 @@ Clauses(o) ==
       ELSE {})
   \cup
      \* ---- C15: a default run without injected fault completes (CSR-only roots are outside the model)
-     (IF IsRun(o) /\ fl = DefaultFlags /\ o.act.outcome \in {"ok", "signfail"} /\ TypeOK(pre) /\ ~Dangling(pre)
+     (IF IsRun(o) /\ fl = DefaultFlags /\ o.act.outcome \in {"ok", "signfail"} /\ TypeOK(pre) /\ ~Refusing(pre, fl)
       THEN IF o.obs.result = "ok" THEN {} ELSE {"defaultRunFails"}
       ELSE {})
   \cup
